@@ -29,6 +29,9 @@ type AbsEval struct {
 	// evaluated, lets the evaluation go on after the statement with everything
 	// either branch assigns forgotten (the values after it over-approximate both).
 	UnknownIf func(s *ast.IfStmt) bool
+	// Zero, when set, gives the zero value of a declared variable's type
+	// (`var x T`) for types other than pointers, booleans, integers and strings.
+	Zero func(t types.Type) (any, bool)
 	// Tuple, when set, gives the values of a multi-value call (`a, b := f(x)`).
 	Tuple func(call *ast.CallExpr) ([]any, bool)
 	// Effect, when set, is told of every call made as a statement (a write to a
@@ -104,6 +107,15 @@ func (a *AbsEval) havoc(n ast.Node) {
 
 // AbsPtr is the address of a value (the result of &x for a local x).
 type AbsPtr struct{ Elem any }
+
+// RunMore executes a further statement list without forgetting the values left
+// by the previous run (the next iteration of a loop, say).
+func (a *AbsEval) RunMore(list []ast.Stmt) ([]any, bool, bool) {
+	if a.vars == nil {
+		a.reset()
+	}
+	return a.exec(list)
+}
 
 // RunList executes a statement list (e.g. a loop body for one element); the
 // second result tells whether an outcome (return or Branch) was reached.
@@ -366,7 +378,54 @@ stmts:
 					}
 				}
 			}
-		case *ast.DeclStmt, *ast.EmptyStmt:
+		case *ast.DeclStmt:
+			// var x T: the zero value
+			if gd, ok := x.Decl.(*ast.GenDecl); ok {
+				for _, sp := range gd.Specs {
+					vs, ok := sp.(*ast.ValueSpec)
+					if !ok {
+						continue
+					}
+					for i, nm := range vs.Names {
+						v, _ := a.Info.Defs[nm].(*types.Var)
+						if v == nil {
+							continue
+						}
+						if i < len(vs.Values) && len(vs.Values) == len(vs.Names) {
+							if val, ok := a.Eval(vs.Values[i]); ok {
+								a.vars[v] = val
+							} else {
+								a.vars[v] = nil
+							}
+							continue
+						}
+						if len(vs.Values) != 0 {
+							a.vars[v] = nil
+							continue
+						}
+						switch u := v.Type().Underlying().(type) {
+						case *types.Pointer, *types.Slice, *types.Map, *types.Interface:
+							a.vars[v] = "nil"
+						case *types.Basic:
+							switch {
+							case u.Info()&types.IsBoolean != 0:
+								a.vars[v] = false
+							case u.Info()&types.IsInteger != 0:
+								a.vars[v] = int64(0)
+							case u.Info()&types.IsString != 0:
+								a.vars[v] = ""
+							}
+						default:
+							if a.Zero != nil {
+								if z, ok := a.Zero(v.Type()); ok {
+									a.vars[v] = z
+								}
+							}
+						}
+					}
+				}
+			}
+		case *ast.EmptyStmt:
 		case *ast.BranchStmt:
 			if a.Branch != nil {
 				if v, ok := a.Branch(x); ok {
@@ -443,6 +502,9 @@ func (a *AbsEval) Eval(e ast.Expr) (any, bool) {
 	}
 	switch x := e.(type) {
 	case *ast.Ident:
+		if _, isNil := a.Info.Uses[x].(*types.Nil); isNil {
+			return "nil", true
+		}
 		if v, ok := a.Info.Uses[x].(*types.Var); ok {
 			if val, has := a.vars[v]; has && val != nil {
 				return val, true
